@@ -14,7 +14,7 @@ def _eligible(side, tp, price):
     return (tp >= price) if side == "BACK" else (tp <= price)
 
 
-def h06a(c, r=2, v=2, s=2):
+def h06a(c, r=2, v=2, s=2, suspension=False):
     """real SimulatedMiddleware.__call__ (RunnerAnalytics._calculate_traded, _process_simulated_orders, _sort_orders,
     SimulatedOrder._process_traded) on r resting orders of up to s strategies vs an independent ledger"""
     iso = c.choose("simulated_strategy_isolation", [True, False])
@@ -42,6 +42,11 @@ def h06a(c, r=2, v=2, s=2):
             o.simulated._piq = piq
             orders.append(dict(order=o, side=side, price=price, piq=piq, rem=o.simulated.size_remaining, strategy=st, n0=len(o.simulated.matched)))
         bk2 = cm.book([cm.runner(1, tv=[{"price": p, "size": x} for p, x in new.items()]), cm.runner(2)], version=7, pt_ms=cm.T0_MS + 1000)
+        if suspension and c.choose("update_carries_a_suspension", [False, True]):
+            # the update that reports the trades also suspends the market (no new version: resting orders survive): that volume traded
+            # before the suspension and counts like any other
+            bk2.status = "SUSPENDED"
+            c.cover("suspended-update")
         with c.guard("update"):
             market(bk2)
             mw(market)
@@ -155,7 +160,8 @@ def h06c(c, U=3):
 
 HARNESSES = [
     Harness("H06c", h06c, quick=dict(U=3), thorough=dict(U=4), pattern="P3 with symbolic time", requires=["run", "executed"]),
-    Harness("H06a-1", h06a, quick=dict(r=1, v=2, s=1), thorough=dict(r=1, v=3, s=1), pattern="P2 inductive step", requires=["lone", "fill", "unchanged-ladder"],
+    Harness("H06a-1", h06a, quick=dict(r=1, v=2, s=1, suspension=True), thorough=dict(r=1, v=3, s=1, suspension=True), pattern="P2 inductive step",
+            requires=["lone", "fill", "unchanged-ladder", "suspended-update"],
             outside=["order and traded prices outside {1.5, 2.0, 2.5, 3.0}"]),
     Harness("H06a", h06a, quick=dict(r=2, v=2, s=2), thorough=dict(r=3, v=2, s=2), pattern="P2 inductive step", requires=["lone", "group", "priority", "fill", "unchanged-ladder"],
             wall_s=(300, 3000), max_paths=(300000, 5000000),
